@@ -254,7 +254,15 @@ impl BlockWrite for RollingWriter {
                     (next_file_number, file)
                 } else {
                     let next_file_number = self.directory.files.inc(&self.file_number);
-                    let file = create_file(&self.directory.dir, &next_file_number)?;
+                    let file = match create_file(&self.directory.dir, &next_file_number) {
+                        Ok(file) => file,
+                        Err(io_err) => {
+                            // The file was not created: it must not stay tracked, otherwise a retry
+                            // would open (and write into) whatever already exists under that name.
+                            self.directory.files.untrack(&next_file_number);
+                            return Err(io_err);
+                        }
+                    };
                     (next_file_number, file)
                 };
 
